@@ -495,6 +495,7 @@ func checkMapping(p *Prog, r *Report) {
 // checkStreamSymmetry: session-level read/write pairs.
 func checkStreamSymmetry(p *Prog, r *Report) {
 	defer checkListFraming(p, r, "C14/LIST-FRAMING")
+	defer checkIDListSymmetry(p, r)
 	rule := "C14/STREAM-SYMMETRY"
 	r.Rule(rule, "handshake: with negotiate the client writes its version then reads, the server reads then writes; the seed is written/read once; the daemon receiver reads a filter list iff DeleteMode, which the client sender must then write under the same condition (or never forward --delete)", 3)
 	hc := anchorFunc(p, r, pkgRsyncd, "Server", "handleConn")
